@@ -645,6 +645,30 @@ def generate(problems):
     inner_eoe = made_parser_eoe(th, "ActionTypeHint.get_class_parser", "get_class_parser")
     help_eoe = made_parser_eoe(actions, "_ActionHelpClassPath.print_help", "_ActionHelpClassPath.print_help")
 
+    # attributes add_subcommand copies from the parent parser to the sub-command parser:
+    # `parser.X = self.parent_parser.X` and `for a in (..): setattr(parser, a, getattr(self.parent_parser, a))`
+    sub_inherited = []
+    fn = _func(actions, "_ActionSubCommands.add_subcommand")
+    if fn is None:
+        problems.append("ExcFlow: _ActionSubCommands.add_subcommand not found")
+    else:
+        for n in _walk_no_nested_defs(fn):
+            if isinstance(n, ast.Assign) and len(n.targets) == 1 and isinstance(n.targets[0], ast.Attribute) \
+                    and isinstance(n.targets[0].value, ast.Name) and n.targets[0].value.id == "parser" \
+                    and isinstance(n.value, ast.Attribute) and ast.unparse(n.value.value) == "self.parent_parser" \
+                    and n.value.attr == n.targets[0].attr:
+                sub_inherited.append(n.value.attr)
+            if isinstance(n, ast.For) and isinstance(n.target, ast.Name) and isinstance(n.iter, (ast.Tuple, ast.List, ast.Set)):
+                var = n.target.id
+                copies = any(isinstance(c, ast.Call) and isinstance(c.func, ast.Name) and c.func.id == "setattr" and len(c.args) == 3
+                             and ast.unparse(c.args[0]) == "parser" and ast.unparse(c.args[1]) == var
+                             and ast.unparse(c.args[2]).replace(" ", "") == "getattr(self.parent_parser,%s)" % var
+                             for c in ast.walk(ast.Module(body=n.body, type_ignores=[])))
+                if copies:
+                    sub_inherited += [e.value for e in n.iter.elts if isinstance(e, ast.Constant) and isinstance(e.value, str)]
+        if not sub_inherited:
+            problems.append("ExcFlow: add_subcommand no longer copies settings of the parent parser to the sub-command parser")
+
     loader_exc = {}
     for mode in ("yaml", "json", "toml", "jsonnet"):
         if mode not in loaders:
@@ -709,6 +733,7 @@ def generate(problems):
     out.append("  plainExit := %d" % plain_exit)
     out.append("  innerExitOnError := %s" % ("true" if inner_eoe else "false"))
     out.append("  helpExitOnError := %s" % ("true" if help_eoe else "false"))
+    out.append("  subInherited := [%s]" % ", ".join('"%s"' % a for a in sub_inherited))
     out.append("")
     out.append("end Jap.Gen.ExcFlow")
     write_if_changed("ExcFlow.lean", "\n".join(out) + "\n")
